@@ -5,8 +5,8 @@
   `_make_init_script` (the order in which the defining module's `__dict__`, the per-script helper
   dicts and the fixed helper names are merged — read from the source by T1), the helper naming scheme
   (`_INIT_FACTORY_PAT`, `"__attr_validator_" + name`, `"__attr_attribute_" + name`,
-  `Converter._get_global_name`, `_{name}_key` in `_make_eq_script`/`_make_hash_script`, `{name}_repr`
-  in `_make_repr_script` — affixes read from the source by T1) and, for every generated method, the
+  `Converter._get_global_name`, `__attr_key_{name}` in `_make_eq_script`/`_make_hash_script`,
+  `"__attr_repr_" + name` in `_make_repr_script` — affixes read from the source by T1) and, for every generated method, the
   set of global names its code object loads (`_attrs_to_init_script`, `_make_eq_script`,
   `_make_hash_script`, `_make_repr_script`).
 
@@ -269,10 +269,8 @@ def reprUses (c : Case) : List Entry :=
     (if f.repr == .custom then [use "repr" (reprCallName f.name) ⟨.reprFn, f.name⟩] else []) ++
     (if !f.init then [fx "repr" "getattr", fx "repr" "NOTHING"] else []))
 
-/-- `return NotImplemented`: a plain global unless `_make_eq_script` injects it -/
-def eqNotImplemented : Entry :=
-  if Generated.c17EqFixed.contains "NotImplemented" then fx "eq" "NotImplemented"
-  else use "eq" "NotImplemented" ⟨.builtin, "NotImplemented"⟩
+/-- `return NotImplemented`: passed explicitly by `_make_eq_script`, like the other builtins -/
+def eqNotImplemented : Entry := fx "eq" "NotImplemented"
 
 def eqUses (c : Case) : List Entry :=
   eqNotImplemented ::
@@ -356,17 +354,12 @@ def table (c : Case) : List Entry :=
 
 def injected (c : Case) : List String := (helperGlobs c).map (·.1)
 
-/-! ### naming hazards (each is a listed known deviation; see Spec/C17.lean) -/
+/-! ### naming hazards -/
 
-def isInitScheme (k : Kind) : Bool :=
-  k == .factory || k == .validator || k == .attribute || k == .converter
-
-/-- two helper dicts bind the same name to different objects, one through the `_x_key` / `x_repr`
-    scheme and the other through one of the `__attr_…_x` schemes -/
-def crossCollision (c : Case) : Bool :=
-  (helperGlobs c).any (fun a => (helperGlobs c).any (fun b =>
-    a.1 == b.1 && a.2 != b.2 &&
-    (a.2.kind == .key || a.2.kind == .reprFn) && isInitScheme b.2.kind))
+/-- some helper name is bound to two different objects by the helper dicts of the class (all scripts
+    share one globals dict, so the later binding would win for every method) -/
+def helperClash (c : Case) : Bool :=
+  (helperGlobs c).any (fun a => (helperGlobs c).any (fun b => a.1 == b.1 && a.2 != b.2))
 
 /-- an `__init__` parameter is called like a global the body needs, or like a local it assigns -/
 def paramShadows (c : Case) : Bool :=
@@ -375,7 +368,7 @@ def paramShadows (c : Case) : Bool :=
 def model (c : Case) : Obs :=
   { defErr := "", table := table c, injected := injected c,
     poisonOk := !(table c).any (fun e => e.obj.kind == .module),
-    neutralOk := !(crossCollision c || paramShadows c),
+    neutralOk := !(helperClash c || paramShadows c),
     sourceOk := true }
 
 end Attrs.C17
